@@ -23,7 +23,10 @@ def realMaps (P : Params) : RealMaps := ⟨floatToStr P, decimalToStr P⟩
 
 /-! ## mapR: the reals, nothing else -/
 
-def Pt.mapR (m : RealMaps) (p : Pt) : Pt := ⟨m.f p.x, m.f p.y⟩
+def Pt.mapR (m : RealMaps) (p : Pt) : Pt := ⟨m.f p.x, m.f p.y, p.z.map m.f⟩
+
+/-- what is left of a point where the writer only writes x and y -/
+def Pt.flat (p : Pt) : Pt := ⟨p.x, p.y, none⟩
 
 def Shape1.mapR (m : RealMaps) : Shape1 → Shape1
   | .rect l w o c => .rect (m.g l) (m.g w) (m.g o) (c.mapR m)
@@ -55,9 +58,9 @@ def State.mapR (m : RealMaps) (s : State) : State := ⟨s.fields.map (fieldMapR 
 /-! ## canon: shapes -/
 
 def Shape1.canon (dyn : Bool) : Shape1 → Shape1
-  | .rect l w o c => .rect l w (if dyn && isZeroRepr o then "0.0" else o) (if dyn && (isZeroRepr c.x && isZeroRepr c.y) then zeroPt else c)
-  | .circ r c => .circ r (if dyn && (isZeroRepr c.x && isZeroRepr c.y) then zeroPt else c)
-  | .poly vs => .poly vs
+  | .rect l w o c => .rect l w (if dyn && isZeroRepr o then "0.0" else o) (if dyn && isOrigin c then zeroPt else c.flat)
+  | .circ r c => .circ r (if dyn && isOrigin c then zeroPt else c.flat)
+  | .poly vs => .poly (vs.map Pt.flat)
 
 def Shape.canon (dyn : Bool) : Shape → Shape
   | .one s => .one (s.canon dyn)
@@ -88,7 +91,8 @@ theorem decimalToStr_zero (P : Params) : decimalToStr P "0.0" = "0.0" := by
 theorem realMaps_zeroFixed (P : Params) (h : 1 ≤ P.d) : ZeroFixed (realMaps P) :=
   ⟨floatToStr_zero P h, decimalToStr_zero P⟩
 
-theorem ptE_norm (P : Params) (p : Pt) : (ptE P).norm p = p.mapR (realMaps P) := rfl
+theorem ptE_norm (P : Params) (p : Pt) : (ptE P).norm p = p.flat.mapR (realMaps P) := rfl
+theorem pt3E_norm (P : Params) (p : Pt) : (pt3E P).norm p = p.mapR (realMaps P) := rfl
 
 theorem zeroPt_mapR (m : RealMaps) (h : ZeroFixed m) : zeroPt.mapR m = zeroPt := by
   simp [Pt.mapR, zeroPt, h.f0]
@@ -101,14 +105,14 @@ theorem normShape1_eq (P : Params) (hz : ZeroFixed (realMaps P)) (dyn : Bool) (s
   | rect l w o c =>
     simp only [normShape1, rectE, ECodec.ofKids, Codec.pair, Codec.child, ECodec.ofText, Prim.decPlain, orientC, centerC,
       Codec.optChild, Shape1.canon, Shape1.mapR, ptE_norm]
-    cases dyn <;> cases h1 : isZeroRepr o <;> cases h2 : (isZeroRepr c.x && isZeroRepr c.y) <;>
-      simp [realMaps, hf0, hg0, Pt.mapR, zeroPt]
+    cases dyn <;> cases h1 : isZeroRepr o <;> cases h2 : isOrigin c <;>
+      simp [realMaps, hf0, hg0, Pt.mapR, Pt.flat, zeroPt]
   | circ r c =>
     simp only [normShape1, circE, ECodec.ofKids, Codec.pair, Codec.child, ECodec.ofText, Prim.decPlain, centerC,
       Codec.optChild, Shape1.canon, Shape1.mapR, ptE_norm]
-    cases dyn <;> cases h2 : (isZeroRepr c.x && isZeroRepr c.y) <;> simp [realMaps, hf0, Pt.mapR, zeroPt]
+    cases dyn <;> cases h2 : isOrigin c <;> simp [realMaps, hf0, Pt.mapR, Pt.flat, zeroPt]
   | poly vs =>
-    simp only [normShape1, polyE, ECodec.ofKids, Codec.many, Shape1.canon, Shape1.mapR]
+    simp only [normShape1, polyE, ECodec.ofKids, Codec.many, Shape1.canon, Shape1.mapR, List.map_map]
     rfl
 
 theorem shapeC_norm_eq (P : Params) (hz : ZeroFixed (realMaps P)) (dyn : Bool) (s : Shape) :
@@ -347,6 +351,9 @@ def Bound.mapR (m : RealMaps) (b : Bound) : Bound := ⟨b.pts.map (Pt.mapR m), b
 def StopLine.mapR (m : RealMaps) (s : StopLine) : StopLine :=
   ⟨s.pts.map (fun pq => (pq.1.mapR m, pq.2.mapR m)), s.marking, s.signRefs, s.lightRefs⟩
 
+/-- the two points of a stop line are written as x, y -/
+def StopLine.flat (s : StopLine) : StopLine := ⟨s.pts.map (fun pq => (pq.1.flat, pq.2.flat)), s.marking, s.signRefs, s.lightRefs⟩
+
 def Lanelet.mapR (m : RealMaps) (l : Lanelet) : Lanelet :=
   ⟨l.id, l.left.mapR m, l.right.mapR m, l.pred, l.succ, l.adjL, l.adjR, l.stop.map (StopLine.mapR m), l.types, l.oneWay, l.bidir,
    l.signs, l.lights⟩
@@ -360,11 +367,12 @@ def canonAdj (a : Option Adj) : Option Adj :=
 /-- an adjacent id 0 is dropped, an empty type set becomes {unknown}, a stop line without points gets the end points of the
     bounds -/
 def Lanelet.canon (l : Lanelet) : Lanelet :=
-  ⟨l.id, l.left, l.right, l.pred, l.succ, canonAdj l.adjL, canonAdj l.adjR, (completeStop l.left l.right l.stop).getD l.stop,
+  ⟨l.id, l.left, l.right, l.pred, l.succ, canonAdj l.adjL, canonAdj l.adjR,
+   (completeStop l.left l.right (l.stop.map StopLine.flat)).getD (l.stop.map StopLine.flat),
    if l.types.isEmpty then ["unknown"] else l.types, l.oneWay, l.bidir, l.signs, l.lights⟩
 
 theorem boundE_norm_eq (P : Params) (b : Bound) : (boundE P).norm b = b.mapR (realMaps P) := by
-  show (⟨b.pts.map (ptE P).norm, if (b.marking != "unknown") = true then b.marking else "unknown"⟩ : Bound) = _
+  show (⟨b.pts.map (pt3E P).norm, if (b.marking != "unknown") = true then b.marking else "unknown"⟩ : Bound) = _
   simp only [Bound.mapR]
   congr 1
   cases h : (b.marking != "unknown")
@@ -390,7 +398,9 @@ theorem usersC_norm_eq (t : String) (l : List String) : (usersC t).norm l = l :=
   show List.map id l = l
   simp
 
-theorem stopLineE_norm_eq (P : Params) (s : StopLine) : (stopLineE P).norm s = s.mapR (realMaps P) := rfl
+theorem stopLineE_norm_eq (P : Params) (s : StopLine) : (stopLineE P).norm s = s.flat.mapR (realMaps P) := by
+  cases s with
+  | mk pts m a b => cases pts <;> rfl
 
 theorem lastPt_map (m : RealMaps) (l : List Pt) : lastPt (l.map (Pt.mapR m)) = (lastPt l).map (Pt.mapR m) := by
   simp [lastPt, List.getLast?_map]
@@ -410,14 +420,23 @@ theorem completeStop_mapR (m : RealMaps) (left right : Bound) (stop : Option Sto
 /-- the codec's own side condition on a lanelet: a stop line without points needs end points to be placed at -/
 def Lanelet.Ok (l : Lanelet) : Prop := ∀ sl, l.stop = some sl → sl.pts = none → l.left.pts ≠ [] ∧ l.right.pts ≠ []
 
-theorem completeStop_isSome (l : Lanelet) (h : l.Ok) : (completeStop l.left l.right l.stop).isSome = true := by
+theorem completeStop_isSome (l : Lanelet) (h : l.Ok) :
+    (completeStop l.left l.right (l.stop.map StopLine.flat)).isSome = true := by
   cases hs : l.stop with
   | none => rfl
-  | some sl =>
+  | some sl0 =>
+    have hsl : Option.map StopLine.flat (some sl0) = some sl0.flat := rfl
+    rw [hsl]
+    generalize hsl' : sl0.flat = sl
     cases hp : sl.pts with
     | some pq => simp [completeStop, hp]
     | none =>
-      obtain ⟨hl, hr⟩ := h sl hs hp
+      have hp0 : sl0.pts = none := by
+        rw [← hsl'] at hp
+        cases h0 : sl0.pts with
+        | none => rfl
+        | some pq => simp [StopLine.flat, h0] at hp
+      obtain ⟨hl, hr⟩ := h sl0 hs hp0
       have h1 := getLast?_isSome_of_ne_nil hl
       have h2 := getLast?_isSome_of_ne_nil hr
       simp only [completeStop, hp, lastPt]
@@ -434,10 +453,13 @@ theorem laneletE_norm_eq (P : Params) (l : Lanelet) (h : l.Ok) : (laneletE P).no
     l.stop.map (stopLineE P).norm, typesC.norm l.types, (usersC "userOneWay").norm l.oneWay, (usersC "userBidirectional").norm l.bidir,
     (refsC "trafficSignRef").norm l.signs, (refsC "trafficLightRef").norm l.lights)).getD l = _
   simp only [boundE_norm_eq, refsC_norm_eq, adjC_norm_eq, typesC_norm_eq, usersC_norm_eq, laneletOfTuple]
-  have hst : l.stop.map (stopLineE P).norm = l.stop.map (StopLine.mapR (realMaps P)) := rfl
+  have hst : l.stop.map (stopLineE P).norm = (l.stop.map StopLine.flat).map (StopLine.mapR (realMaps P)) := by
+    cases l.stop with
+    | none => rfl
+    | some sl => simp [stopLineE_norm_eq]
   rw [hst, completeStop_mapR]
   have hs := completeStop_isSome l h
-  cases hc : completeStop l.left l.right l.stop with
+  cases hc : completeStop l.left l.right (l.stop.map StopLine.flat) with
   | none => rw [hc] at hs; cases hs
   | some st => simp [Lanelet.canon, Lanelet.mapR, hc]
 
@@ -448,7 +470,7 @@ def SignElement.canon (cfg : Cfg) (e : SignElement) : SignElement := ⟨(Prim.si
 def Sign.mapR (m : RealMaps) (s : Sign) : Sign := ⟨s.id, s.elements, s.position.map (Pt.mapR m), s.virtual⟩
 
 /-- the sign ids go through the country table; `virtual` is never read (known finding) -/
-def Sign.canon (cfg : Cfg) (s : Sign) : Sign := ⟨s.id, s.elements.map (SignElement.canon cfg), s.position, false⟩
+def Sign.canon (cfg : Cfg) (s : Sign) : Sign := ⟨s.id, s.elements.map (SignElement.canon cfg), s.position.map Pt.flat, false⟩
 
 theorem signElementE_norm_eq (cfg : Cfg) (e : SignElement) : (signElementE cfg).norm e = e.canon cfg := by
   show (⟨(Prim.signId cfg.signVals cfg.maxSpeed).norm e.id, List.map id e.values⟩ : SignElement) = _
@@ -459,7 +481,8 @@ theorem signE_norm_eq (cfg : Cfg) (s : Sign) : (signE cfg).norm s = (s.canon cfg
   have : s.elements.map (signElementE cfg).norm = s.elements.map (SignElement.canon cfg) :=
     List.map_congr_left (fun e _ => signElementE_norm_eq cfg e)
   rw [this]
-  rfl
+  simp only [Sign.canon, Sign.mapR, Option.map_map]
+  congr 1
 
 def Cycle.canon (c : Cycle) : Cycle := ⟨c.elements, if c.offset > 0 then c.offset else 0⟩
 
@@ -467,7 +490,8 @@ def Light.mapR (m : RealMaps) (l : Light) : Light := ⟨l.id, l.cycle, l.positio
 
 /-- a non-positive time offset is not written (read: 0); an unknown direction reads as `all` -/
 def Light.canon (l : Light) : Light :=
-  ⟨l.id, l.cycle.map Cycle.canon, l.position, if lightDirections.contains l.direction then l.direction else "all", l.active⟩
+  ⟨l.id, l.cycle.map Cycle.canon, l.position.map Pt.flat, if lightDirections.contains l.direction then l.direction else "all",
+   l.active⟩
 
 theorem cycleE_norm_eq (c : Cycle) : cycleE.norm c = c.canon := by
   show (⟨c.elements.map (fun e => (⟨id e.duration, id e.color⟩ : CycleElement)), if decide (c.offset > 0) = true then id c.offset else 0⟩ : Cycle) = _
@@ -481,7 +505,8 @@ theorem lightE_norm_eq (P : Params) (l : Light) : (lightE P).norm l = l.canon.ma
     | none => rfl
     | some c => simp [cycleE_norm_eq]
   rw [this]
-  rfl
+  simp only [Light.canon, Light.mapR, Option.map_map]
+  congr 1
 
 def Incoming.canon (i : Incoming) : Incoming :=
   ⟨i.id, i.lanelets, i.right, i.straight, i.left, match i.leftOf with
@@ -562,44 +587,62 @@ theorem normDoc_eq (cfg : Cfg) (hd : 1 ≤ cfg.P.d) (hne : cfg.classes ≠ []) (
 
 /-! ## canon is the identity on strictly expressible values -/
 
+theorem Pt.flat_id (p : Pt) (h : p.z = none) : p.flat = p := by
+  cases p with
+  | mk x y z =>
+    simp only at h
+    simp [Pt.flat, h]
+
+/-- centres and polygon vertices are 2-D (the writer only writes their x and y); for the shape of a dynamic obstacle a zero
+    orientation is spelled "0.0" and a centre at the origin is `zeroPt` -/
 def Shape1.Strict (dyn : Bool) : Shape1 → Prop
-  | .rect _ _ o c => dyn = true → (isZeroRepr o = true → o = "0.0") ∧ ((isZeroRepr c.x && isZeroRepr c.y) = true → c = zeroPt)
-  | .circ _ c => dyn = true → ((isZeroRepr c.x && isZeroRepr c.y) = true → c = zeroPt)
-  | .poly _ => True
-
-theorem Shape1.canon_id (dyn : Bool) (s : Shape1) (h : s.Strict dyn) : s.canon dyn = s := by
-  cases dyn with
-  | false => cases s <;> simp [Shape1.canon]
-  | true =>
-    cases s with
-    | rect l w o c =>
-      obtain ⟨ho, hc⟩ := h rfl
-      simp only [Shape1.canon, Bool.true_and]
-      congr 1
-      · cases hz : isZeroRepr o
-        · simp
-        · simp [ho hz]
-      · cases hz : (isZeroRepr c.x && isZeroRepr c.y)
-        · simp
-        · simp [hc hz]
-    | circ r c =>
-      have hc := h rfl
-      simp only [Shape1.canon, Bool.true_and]
-      congr 1
-      cases hz : (isZeroRepr c.x && isZeroRepr c.y)
-      · simp
-      · simp [hc hz]
-    | poly vs => rfl
-
-/-- a group has at least two members -/
-def Shape.Strict (dyn : Bool) : Shape → Prop
-  | .one s => s.Strict dyn
-  | .group l => 2 ≤ l.length ∧ ∀ s, s ∈ l → s.Strict dyn
+  | .rect _ _ o c => c.z = none ∧ (dyn = true → (isZeroRepr o = true → o = "0.0") ∧ (isOrigin c = true → c = zeroPt))
+  | .circ _ c => c.z = none ∧ (dyn = true → (isOrigin c = true → c = zeroPt))
+  | .poly vs => ∀ v, v ∈ vs → v.z = none
 
 theorem map_id_of {α : Type} (l : List α) (f : α → α) (h : ∀ a, a ∈ l → f a = a) : l.map f = l := by
   induction l with
   | nil => rfl
   | cons a r ih => simp [h a (by simp), ih (fun b hb => h b (by simp [hb]))]
+
+theorem Shape1.canon_id (dyn : Bool) (s : Shape1) (h : s.Strict dyn) : s.canon dyn = s := by
+  cases s with
+  | rect l w o c =>
+    obtain ⟨hzn, hd⟩ := h
+    have hfl := Pt.flat_id c hzn
+    cases dyn with
+    | false => simp [Shape1.canon, hfl]
+    | true =>
+      obtain ⟨ho, hc⟩ := hd rfl
+      simp only [Shape1.canon, Bool.true_and]
+      congr 1
+      · cases hz : isZeroRepr o
+        · simp
+        · simp [ho hz]
+      · cases hz : isOrigin c
+        · simp [hfl]
+        · simp [hc hz]
+  | circ r c =>
+    obtain ⟨hzn, hd⟩ := h
+    have hfl := Pt.flat_id c hzn
+    cases dyn with
+    | false => simp [Shape1.canon, hfl]
+    | true =>
+      have hc := hd rfl
+      simp only [Shape1.canon, Bool.true_and]
+      congr 1
+      cases hz : isOrigin c
+      · simp [hfl]
+      · simp [hc hz]
+  | poly vs =>
+    simp only [Shape1.canon]
+    congr 1
+    exact map_id_of _ _ (fun v hv => Pt.flat_id v (h v hv))
+
+/-- a group has at least two members -/
+def Shape.Strict (dyn : Bool) : Shape → Prop
+  | .one s => s.Strict dyn
+  | .group l => 2 ≤ l.length ∧ ∀ s, s ∈ l → s.Strict dyn
 
 theorem Shape.canon_id (dyn : Bool) (s : Shape) (h : s.Strict dyn) : s.canon dyn = s := by
   cases s with
@@ -736,7 +779,8 @@ theorem PhantomObs.canon_id (o : PhantomObs) (h : o.Strict) : o.canon = o := by
 
 /-- ids ≥ 1 in the adjacency references, at least one lanelet type, a stop line has its two points -/
 def Lanelet.Strict (l : Lanelet) : Prop :=
-  (∀ a, l.adjL = some a → a.ref ≠ 0) ∧ (∀ a, l.adjR = some a → a.ref ≠ 0) ∧ l.types ≠ [] ∧ (∀ s, l.stop = some s → s.pts ≠ none)
+  (∀ a, l.adjL = some a → a.ref ≠ 0) ∧ (∀ a, l.adjR = some a → a.ref ≠ 0) ∧ l.types ≠ [] ∧
+    (∀ s, l.stop = some s → ∃ a b, s.pts = some (a, b) ∧ a.z = none ∧ b.z = none)
 
 theorem canonAdj_id (a : Option Adj) (h : ∀ v, a = some v → v.ref ≠ 0) : canonAdj a = a := by
   cases a with
@@ -747,7 +791,9 @@ theorem canonAdj_id (a : Option Adj) (h : ∀ v, a = some v → v.ref ≠ 0) : c
 
 theorem Lanelet.Strict.ok {l : Lanelet} (h : l.Strict) : l.Ok := by
   intro sl hs hp
-  exact absurd hp (h.2.2.2 sl hs)
+  obtain ⟨a, b, hab, _⟩ := h.2.2.2 sl hs
+  rw [hab] at hp
+  cases hp
 
 theorem Lanelet.canon_id (l : Lanelet) (h : l.Strict) : l.canon = l := by
   obtain ⟨h1, h2, h3, h4⟩ := h
@@ -758,25 +804,38 @@ theorem Lanelet.canon_id (l : Lanelet) (h : l.Strict) : l.canon = l := by
       cases types with
       | nil => exact absurd rfl h3
       | cons a r => rfl
+    have hfl : stop.map StopLine.flat = stop := by
+      cases stop with
+      | none => rfl
+      | some sl =>
+        obtain ⟨a, b, hab, ha, hb⟩ := h4 sl rfl
+        cases sl with
+        | mk pts m sr lr =>
+          simp only at hab
+          simp [StopLine.flat, hab, Pt.flat_id a ha, Pt.flat_id b hb]
     have hs : (completeStop left right stop).getD stop = stop := by
       cases stop with
       | none => rfl
       | some sl =>
-        cases hp : sl.pts with
-        | none => exact absurd hp (h4 sl rfl)
-        | some pq => simp [completeStop, hp]
-    simp [Lanelet.canon, canonAdj_id adjL h1, canonAdj_id adjR h2, ht, hs]
+        obtain ⟨a, b, hab, _⟩ := h4 sl rfl
+        simp [completeStop, hab]
+    simp [Lanelet.canon, canonAdj_id adjL h1, canonAdj_id adjR h2, ht, hfl, hs]
 
 /-- ids known to the country table ("274" only where it is the country's MAX_SPEED); `virtual` False (known finding) -/
 def Sign.Strict (cfg : Cfg) (s : Sign) : Prop :=
-  s.virtual = false ∧ ∀ e, e ∈ s.elements → cfg.signVals.contains e.id = true ∧ (e.id = "274" → cfg.maxSpeed = some "274")
+  s.virtual = false ∧ (∀ p, s.position = some p → p.z = none) ∧
+    ∀ e, e ∈ s.elements → cfg.signVals.contains e.id = true ∧ (e.id = "274" → cfg.maxSpeed = some "274")
 
 theorem Sign.canon_id (cfg : Cfg) (s : Sign) (h : s.Strict cfg) : s.canon cfg = s := by
   cases s with
   | mk id els pos v =>
-    obtain ⟨hv, he⟩ := h
-    simp only at hv he
-    simp only [Sign.canon, hv]
+    obtain ⟨hv, hp, he⟩ := h
+    simp only at hv hp he
+    have hpos : pos.map Pt.flat = pos := by
+      cases pos with
+      | none => rfl
+      | some q => simp [Pt.flat_id q (hp q rfl)]
+    simp only [Sign.canon, hv, hpos]
     congr 1
     apply map_id_of
     intro e hm
@@ -792,14 +851,19 @@ theorem Sign.canon_id (cfg : Cfg) (s : Sign) (h : s.Strict cfg) : s.canon cfg = 
         simp [h274 this, this]
 
 /-- time offset ≥ 0, a direction of the enumeration -/
-def Light.Strict (l : Light) : Prop := lightDirections.contains l.direction = true ∧ ∀ c, l.cycle = some c → 0 ≤ c.offset
+def Light.Strict (l : Light) : Prop :=
+  lightDirections.contains l.direction = true ∧ (∀ p, l.position = some p → p.z = none) ∧ ∀ c, l.cycle = some c → 0 ≤ c.offset
 
 theorem Light.canon_id (l : Light) (h : l.Strict) : l.canon = l := by
   cases l with
   | mk id cyc pos dir act =>
-    obtain ⟨hd, hc⟩ := h
-    simp only at hd hc
-    simp only [Light.canon, hd, ↓reduceIte]
+    obtain ⟨hd, hp, hc⟩ := h
+    simp only at hd hp hc
+    have hpos : pos.map Pt.flat = pos := by
+      cases pos with
+      | none => rfl
+      | some q => simp [Pt.flat_id q (hp q rfl)]
+    simp only [Light.canon, hd, hpos, ↓reduceIte]
     congr 1
     cases cyc with
     | none => rfl
